@@ -265,6 +265,38 @@ class TestPoolStream:
                 pid2 = svc.get_pid()
             assert pid1 != pid2
 
+    def test_overlapped_stream_discards(self) -> None:
+        """A stream left open behind a second, cleanly closed one -> worker discarded."""
+        with WorkerPool(max_idle=4) as pool:
+            cmd = _pool_worker_cmd()
+            with pool.connect(PoolTestService, cmd) as svc:
+                first = svc.generate(count=5)
+                first.tick()
+                # Opening another stream over the unfinished one garbles both;
+                # whatever the second one reports, it ends up "closed".
+                with contextlib.suppress(Exception), svc.generate(count=1) as second:
+                    second.tick()
+            assert pool.idle_count == 0
+            assert pool.metrics.discards >= 1
+
+    def test_stream_ended_by_client_error_discards(self) -> None:
+        """A session that ends without reaching the end of its stream -> worker discarded."""
+        from vgi_rpc.rpc import RpcError
+
+        with WorkerPool(max_idle=4) as pool:
+            cmd = _pool_worker_cmd()
+            with pool.connect(PoolTestService, cmd) as svc:
+                pid1 = svc.get_pid()
+                with svc.echo(dummy=0) as session:
+                    session.exchange(AnnotatedBatch.from_pydict({"value": [1.0]}, schema=_ECHO_SCHEMA))
+                    # The writer refuses a batch of another schema before anything
+                    # is sent: the session is over, the stream still open on the server.
+                    with pytest.raises(RpcError):
+                        session.exchange(AnnotatedBatch.from_pydict({"other": [1]}))
+            assert pool.idle_count == 0
+            with pool.connect(PoolTestService, cmd) as svc:
+                assert svc.get_pid() != pid1
+
 
 class TestPoolLifecycle:
     """Pool lifecycle tests."""
